@@ -24,6 +24,10 @@ HERE = os.path.dirname(os.path.dirname(os.path.abspath(__file__)))
 SUITE = ["/venv/bin/python", "-m", "pytest", "-q", "-p", "no:cacheprovider", "--timeout=900", "-x", "tests"]
 
 
+FALLBACK = ["C11", "C10", "C09", "C05", "C01", "C06", "C08", "C03", "C07", "C02", "C13", "C04", "C12", "C18", "C19", "C20",
+            "C14", "C15", "C16", "C17"]
+
+
 def sh(cmd, **kw):
     return subprocess.run(cmd, capture_output=True, text=True, **kw)
 
@@ -56,6 +60,7 @@ def main():
     ap.add_argument("--suite", action="store_true")
     ap.add_argument("--only", default=None)
     ap.add_argument("--tier", default="quick")
+    ap.add_argument("--fallback", action="store_true", help="when the owning check misses, try the others one by one")
     ap.add_argument("--out", default=os.path.join(HERE, "selftest_results.json"))
     a = ap.parse_args()
     results = {}
@@ -88,7 +93,11 @@ def main():
                 r = sh(SUITE, cwd=wt, env=env)
                 tail = (r.stdout.strip().splitlines() or [""])[-1]
                 rec["suite"] = dict(rc=r.returncode, tail=tail)
-            for pid in it["props"]:
+            plist = list(it["props"])
+            i_ = 0
+            while i_ < len(plist):
+                pid = plist[i_]
+                i_ += 1
                 t0 = time.time()
                 env = dict(os.environ, XV_REPO=wt)
                 r = sh([os.path.join(HERE, "check"), pid, "--tier", a.tier, "--no-evidence"], env=env)
@@ -96,6 +105,12 @@ def main():
                 rec["checks"][pid] = dict(rc=r.returncode, wall=round(time.time() - t0, 1),
                                           mechanisms=[f"{m} x{n}" for m, n in mechs[:6]],
                                           inconclusive=re.findall(r"INCONCLUSIVE.*", r.stdout)[:2])
+                if a.fallback and i_ == len(plist) and not any(c["rc"] == 1 for c in rec["checks"].values()):
+                    # nobody caught it so far: try the other checks, most general object-level ones first
+                    for q in FALLBACK:
+                        if q not in plist:
+                            plist.append(q)
+                            break
         finally:
             sh(["git", "-C", "/repo", "worktree", "remove", "--force", wt])
             shutil.rmtree(d, ignore_errors=True)
